@@ -800,11 +800,17 @@ fn run_c19(ch: &mut Choices, rep: &mut RunReport) -> Outcome {
             let id = ids[sh.pick(ids.len() as u32) as usize].to_string();
             let clean = sh.coin(2, 3);
             let keep_alive = if sh.coin(1, 14) { 0 } else { 30 };
-            let login = match sh.pick(5) {
+            let login = match sh.pick(10) {
                 0 => None,
                 1 => Some(("alice".to_string(), "secret".to_string())),
                 2 => Some(("alice".to_string(), "wrong".to_string())),
                 3 => Some(("mallory".to_string(), "secret".to_string())),
+                // near misses of a listed password: prefix, extension, empty, other case
+                4 => Some(("alice".to_string(), "secre".to_string())),
+                5 => Some(("alice".to_string(), "secret1".to_string())),
+                6 => Some(("alice".to_string(), String::new())),
+                7 => Some(("bob".to_string(), "Hunter2".to_string())),
+                8 => Some(("bob".to_string(), "hunter2".to_string())),
                 _ => Some(("bob".to_string(), format!("pw{}", sh.pick(4)))),
             };
             let spec = ConnectSpec {
@@ -1494,8 +1500,11 @@ fn gen_will_case(ch: &mut Choices) -> WillCase {
     } else {
         None
     };
+    // (an empty client id - the broker assigns one - is decided by the will's
+    // payload number, not by a further choice)
+    let anon = will.as_ref().map_or(false, |w| w.1.last().map_or(false, |b| *b == b'7'));
     let spec = ConnectSpec {
-        id: "willer".into(),
+        id: if anon { String::new() } else { "willer".into() },
         clean: true,
         keep_alive,
         will: will.clone(),
@@ -1515,10 +1524,20 @@ fn gen_will_case(ch: &mut Choices) -> WillCase {
         // MQTT 5 knows three encodings of a normal DISCONNECT: no body, reason code
         // only (property length then counts as 0), reason code + empty properties
         0 if wv5 => frames.push((
-            match ch.pick(3) {
+            match ch.pick(5) {
                 0 => disconnect_bytes(),
                 1 => vec![0xe0, 0x01, 0x00],
-                _ => vec![0xe0, 0x02, 0x00, 0x00],
+                2 => vec![0xe0, 0x02, 0x00, 0x00],
+                3 => {
+                    // reason code 0 + one user property whose value is longer than its key
+                    let mut b = vec![0xe0, 22, 0x00, 20, 0x26, 0x00, 0x01, b'k', 0x00, 14];
+                    b.extend_from_slice(b"a longer value");
+                    b
+                }
+                _ => {
+                    // reason code 0 + reason string
+                    vec![0xe0, 8, 0x00, 6, 0x1f, 0x00, 0x03, b'b', b'y', b'e']
+                }
             },
             true,
         )),
@@ -1528,7 +1547,7 @@ fn gen_will_case(ch: &mut Choices) -> WillCase {
     }
     let ghost = ch.coin(1, 4);
     let late_watcher = ch.coin(1, 4);
-    let afterlife = !late_watcher && ch.coin(1, 3);
+    let afterlife = !late_watcher && ch.coin(1, 3) && !anon;
     WillCase {
         wv5,
         vv5,
